@@ -70,16 +70,25 @@
 (*                   logged return: it is pending or has returned true (or pre-resolved).     *)
 (*   ResultMismatch  order-free (an awaiter's pair for q differs from the winner's pair).     *)
 (*   WrongResult,    B3, B4.  The set of promises a container awaiter may return from is the  *)
-(*   NoCause         interval bound `aux` (B2/B3).  The sharper "follows replacements"         *)
-(*                   reading (`late`: not the result of a promise that got it only after it   *)
-(*                   was certainly replaced) assumes that the awaiter re-sampled at the        *)
-(*                   replacement, i.e. coarse granularity.  In a fine execution the awaiter    *)
-(*                   may sit between its sampling section and its select while the promise is *)
-(*                   replaced and then resolved; its select then finds the replacement         *)
-(*                   channel and the done channel both ready and may take either (the code     *)
-(*                   has no re-check; observation O6 in Promise.tla, tolerated at model level  *)
-(*                   before).  From the events this cannot be told from an awaiter that was   *)
-(*                   rightly woken, so `late` is applied in coarse executions only.           *)
+(*   NoCause         interval bound `aux` (B2/B3): sound at either granularity.  The sharper       *)
+(*                   "follows replacements" reading (`late`: not the result of a promise that  *)
+(*                   got it only after it was certainly replaced) assumes that an awaiter      *)
+(*                   which sampled the promise has re-sampled by the time the replacement's    *)
+(*                   step is over - true at coarse granularity only.  In a fine execution the  *)
+(*                   awaiter may sit between its sampling section and its select while the     *)
+(*                   promise is replaced and then resolved; its select then finds the          *)
+(*                   replacement channel and the done channel both ready, Go takes either, and  *)
+(*                   the code re-checks the replacement channel only for results whose error   *)
+(*                   is context.Canceled.  This is observation O6 of Promise.tla, which the     *)
+(*                   design already tolerates at model level (it needs the awaiter's goroutine *)
+(*                   not to run between replacement and resolution).  All 21 alarms reproduced  *)
+(*                   with the refinements on (seeds 1-3, 360 000 seeded executions:            *)
+(*                   WrongResult:container:await|errch|cancelch) are this race, all in fine    *)
+(*                   executions; none came from a combined step.  `late` is therefore applied   *)
+(*                   in coarse executions only.  (Read strictly, the race does return the       *)
+(*                   result of a promise that was never current while resolved; a re-check     *)
+(*                   after every inner await closes it: proposed-fix-3.diff, constant FixO6 of  *)
+(*                   Promise.tla, under which `late` holds in every interleaving.)              *)
 (*   AwaitStuck      B5 + B1/B2/B4 ("certainly available", "certainly cancelled / fired").     *)
 (*   AwaitSpin       the controller's observation; no event order involved.                  *)
 EXTENDS Naturals, FiniteSets, Sequences, TLC
